@@ -65,10 +65,10 @@ def runBinary (op : String) (A B : DT) : Answer :=
     if A.t.rank > B.t.rank then "A-longer" else if A.t.rank < B.t.rank then "B-longer" else "same-rank"]
   if isLogic op then
     let model : Outcome := match applyBooleanOp (boolKernel op) A.t B.t with
-      | .ok t => { status := "ok", outs := [some ⟨.bool, t⟩] }
+      | .ok t => { status := "ok", outs := [some (DT.mk .bool t none)] }
       | .error e => .ofErr e
     let spec : SpecOut := match Spec.binary (boolKernel op) A.t B.t with
-      | some t => { domain := "must", outs := some [some ⟨.bool, t⟩] }
+      | some t => { domain := "must", outs := some [some (DT.mk .bool t none)] }
       | none => { domain := "mustRefuse" }
     { model, spec, tags }
   else if A.dt != B.dt then
@@ -81,10 +81,10 @@ def runBinary (op : String) (A B : DT) : Answer :=
     { model := .ofErr .gorgonia, spec := { domain := "mayRefuse" }, tags := tags ++ ["not-ord"] }
   else if isCmp op then
     let model : Outcome := match applyBinary (cmpKernel op) .multi A.t B.t with
-      | .ok t => { status := "ok", outs := [some ⟨.bool, t⟩] }
+      | .ok t => { status := "ok", outs := [some (DT.mk .bool t none)] }
       | .error e => .ofErr e
     let spec : SpecOut := match Spec.binary (cmpKernel op) A.t B.t with
-      | some t => { domain := if coreDt A.dt then "must" else "mayRefuse", outs := some [some ⟨.bool, t⟩] }
+      | some t => { domain := if coreDt A.dt then "must" else "mayRefuse", outs := some [some (DT.mk .bool t none)] }
       | none => { domain := "mustRefuse" }
     { model, spec, tags }
   else
@@ -92,14 +92,14 @@ def runBinary (op : String) (A B : DT) : Answer :=
     -- outside the exact regime
     let k := arithKernel op A.dt
     let model : Outcome := match applyBinaryM k A.t B.t with
-      | .ok t => { status := "ok", outs := [some ⟨A.dt, t⟩] }
+      | .ok t => { status := "ok", outs := [some (DT.mk A.dt t none)] }
       | .error e => if isFloat A.dt && e == .gorgonia && compat then { status := "inexact" } else .ofErr e
     let spec : SpecOut :=
       match Spec.binary k A.t B.t with
       | none => { domain := "mustRefuse" }
       | some t =>
         match t.data.mapM id with
-        | some d => { domain := if coreDt A.dt then "must" else "mayRefuse", outs := some [some ⟨A.dt, ⟨t.shape, d⟩⟩] }
+        | some d => { domain := if coreDt A.dt then "must" else "mayRefuse", outs := some [some (DT.mk A.dt ⟨t.shape, d⟩ none)] }
         | none => { domain := "mayRefuse" }       -- integer ÷0: ONNX leaves it undefined
     { model := model.checkExact, spec, tags }
 
@@ -123,17 +123,17 @@ def runBcast (which : String) (A B : DT) : Answer :=
   let tags := [if compat then "compatible" else "incompatible",
     if A.t.rank > B.t.rank then "A-longer" else if A.t.rank < B.t.rank then "B-longer" else "same-rank"]
   let mk (r : Res (Tensor Int × Tensor Int)) : Outcome := match r with
-    | .ok (a, b) => { status := "ok", outs := [some ⟨A.dt, a⟩, some ⟨B.dt, b⟩] }
+    | .ok (a, b) => { status := "ok", outs := [some (DT.mk A.dt a none), some (DT.mk B.dt b none)] }
     | .error e => .ofErr e
   let sA := ofFn bs fun idx => A.t.get (Spec.pin A.t.shape idx)
   let sB := ofFn bs fun idx => B.t.get (Spec.pin B.t.shape idx)
   if which == "multidir" then
     { model := mk (multidirBroadcast A.t B.t), tags,
-      spec := if compat then { domain := "must", outs := some [some ⟨A.dt, sA⟩, some ⟨B.dt, sB⟩] }
+      spec := if compat then { domain := "must", outs := some [some (DT.mk A.dt sA none), some (DT.mk B.dt sB none)] }
               else { domain := "mustRefuse" } }
   else
     { model := mk (unidirBroadcast A.t B.t), tags,
-      spec := if compat && bs == A.t.shape then { domain := "must", outs := some [some A, some ⟨B.dt, sB⟩] }
+      spec := if compat && bs == A.t.shape then { domain := "must", outs := some [some A, some (DT.mk B.dt sB none)] }
               else { domain := "mustRefuse" } }
 
 end Drv
